@@ -386,16 +386,15 @@ def site_name(sp):
 def scan_loop_ok(fv, loop, acc_is_field):
     """`for j in 0..buff.len() { if *buff.get(j).unwrap() </<= acc { buff_pos = j; acc = *buff.get(j).unwrap(); } }`
     Returns (ok, why)."""
-    it = fv.term(loop["iter"])
-    if not (it[0] == "struct" and it[1].endswith("ops::Range")):
-        return False, "scan does not iterate a range"
-    d = dict(it[2])
-    if d.get("start") != L(0) or not is_len_of(d.get("end", ("none",)), BUFF):
-        return False, "scan range is %s, expected 0..buff.len() (every buffered m-mer)" % show(it)
     paths = sym_paths(fv, loop["body"])
     view = paths[0].view if paths else fv
-    j = ("item", view.term(loop["iter"]))
-    elem = None
+    X = j = is_elem = None
+    for vv in (view, fv):
+        X, j, is_elem = indexed_traversal(vv.term(loop["iter"]))
+        if X is not None:
+            break
+    if X != BUFF:
+        return False, "scan iterates `%s`, expected every buffered m-mer in index order (0..buff.len() or buff.iter().enumerate())" % show(fv.term(loop["iter"]))
     hit = [sp for sp in paths if sp.state]
     miss = [sp for sp in paths if not sp.state]
     if len(hit) != 1 or len(miss) != 1:
@@ -405,10 +404,8 @@ def scan_loop_ok(fv, loop, acc_is_field):
     if cond is None or cond[0][0] != "bin" or cond[0][1] not in ("<", "<=") or not cond[1]:
         return False, "scan comparison is not `element < running minimum`"
     a, b = cond[0][2], cond[0][3]
-    ok_elem = contains(a, lambda s: s[0] == "call" and s[1].endswith("::get") and s[2] == BUFF and s[3] == j) or \
-        (a[0] == "index" and a[1] == BUFF and a[2] == j)
-    if not ok_elem:
-        return False, "scan compares `%s`, expected buff[j]" % show(a)
+    if not is_elem(a):
+        return False, "scan compares `%s`, expected the element at the loop index" % show(a)
     st = sp.state
     accs = [k for k, v in st.items() if v == a and k != SF("buff_pos")]
     if st.get(SF("buff_pos")) != j:
